@@ -43,7 +43,15 @@ func (l capListener) Accept() (net.Conn, error) {
 }
 
 func ListenWS() (*WSServer, error) {
-	l, err := net.Listen("tcp", "127.0.0.1:0")
+	var l net.Listener
+	var err error
+	for i := 0; i < 120; i++ {
+		l, err = net.Listen("tcp", "127.0.0.1:0")
+		if err == nil {
+			break
+		}
+		time.Sleep(250 * time.Millisecond)
+	}
 	if err != nil {
 		return nil, err
 	}
